@@ -100,7 +100,7 @@ def main():
         for r1 in runs:
             f.write(json.dumps(r1) + "\n")
     pr = subprocess.run(["timeout", "2400", binpath, pfile, ofile], capture_output=True, text=True)
-    outs = [json.loads(l) for l in open(ofile)] if os.path.exists(ofile) else []
+    outs = vlib.read_ndjson(ofile)
     if pr.returncode != 0 or len(outs) != len(runs):
         bad = runs[min(len(outs), len(runs) - 1)]
         rep.violation("hang-or-crash", {"run": bad}, "force evaluation did not complete for %s (exit %s)" % (json.dumps(bad)[:300], pr.returncode))
